@@ -12,6 +12,7 @@ package c13
 import (
 	"fmt"
 	"math/big"
+	"strings"
 	"sync"
 	"testing"
 
@@ -41,6 +42,12 @@ type adapter struct {
 	mul      func(k *big.Int, p pt) pt
 	mulgen   func(k *big.Int) pt
 	combined func(m, n *big.Int, q pt) pt
+	// aliased call forms of the API (receiver = operand, both operands the same object, …); P and Q are
+	// private copies that the call may overwrite; only the returned value is asserted.
+	aliasOps []aliasOp
+	// predicates
+	isEqual    func(p, q pt) bool
+	isIdentity func(p pt) bool
 	// short-Weierstrass APIs: hand over / render an arbitrary reference point (not only multiples of G);
 	// cof is the cofactor by which lifted curve points are multiplied to land in the prime-order group (nil = 1).
 	wc   *curves.WCurve
@@ -58,6 +65,19 @@ type adapter struct {
 	cmu   sync.Mutex
 	cache map[string]string
 }
+
+// aliasOp is one aliased call form: run performs it on private copies, exp gives the exponent of the
+// expected result from the exponents a, b of P, Q and the scalar k.
+type aliasOp struct {
+	name string
+	run  func(P, Q pt, k *big.Int) pt
+	exp  func(a, b, k *big.Int) *big.Int
+}
+
+func expSum(a, b, k *big.Int) *big.Int { return new(big.Int).Add(a, b) }
+func expDbl(a, b, k *big.Int) *big.Int { return new(big.Int).Lsh(a, 1) }
+func expNeg(a, b, k *big.Int) *big.Int { return new(big.Int).Neg(a) }
+func expMul(a, b, k *big.Int) *big.Int { return new(big.Int).Mul(a, k) }
 
 func (a *adapter) want(k *big.Int) string {
 	kk := new(big.Int).Mod(k, a.r)
@@ -347,6 +367,95 @@ func groupLaw(t *rapid.T, ad *adapter) {
 			}
 		}
 	}
+	// aliased call forms: z.Op(z, y), z.Op(x, z), z.Op(z, z), …
+	fresh := func(e *big.Int, label string) pt {
+		if ad.projective && ad.add != nil && rapid.Bool().Draw(t, label) {
+			p, _ := unnormalised(t, ad, e, label+".form")
+			return p
+		}
+		return ad.mk(e)
+	}
+	pick := 0
+	if len(ad.aliasOps) > 0 {
+		pick = rapid.IntRange(0, len(ad.aliasOps)-1).Draw(t, "aliasPick")
+	}
+	for i, op := range ad.aliasOps {
+		if d := (i - pick + len(ad.aliasOps)) % len(ad.aliasOps); d >= 3 {
+			continue // three consecutive forms per case
+		}
+		got := ad.enc(op.run(fresh(a, fmt.Sprintf("al%d.p", i)), fresh(b, fmt.Sprintf("al%d.q", i)), k))
+		if want := ad.want(op.exp(a, b, k)); got != want {
+			if mismatch(t, ad, "aliased", op.name, got, want, desc) {
+				return
+			}
+		}
+		vlib.Class(sub, "aliased:"+op.name)
+	}
+	// predicates on structured pairs, both verdict directions
+	if ad.isEqual != nil {
+		eq := a.Cmp(b) == 0
+		pred := func(name string, got, want bool) bool {
+			if got != want {
+				return !vlib.Report(t, fmt.Sprintf("C13/%s.IsEqual/%s", ad.name, name), fmt.Sprintf("%s: got %v want %v", desc, got, want))
+			}
+			return false
+		}
+		if pred("P-vs-Q", ad.isEqual(P, Q), eq) || pred("Q-vs-P", ad.isEqual(Q, P), eq) {
+			return
+		}
+		if pred("P-vs-P", ad.isEqual(P, P), true) || pred("P-vs-copy", ad.isEqual(P, ad.mk(a)), true) {
+			return
+		}
+		if ad.projective && ad.add != nil {
+			other, form := unnormalised(t, ad, a, "eqform")
+			if pred("P-vs-P-as-"+form, ad.isEqual(P, other), true) || pred("P-as-"+form+"-vs-P", ad.isEqual(other, P), true) {
+				return
+			}
+		}
+		zero := a.Sign() == 0
+		if ad.neg != nil {
+			if pred("P-vs-minusP", ad.isEqual(P, ad.neg(P)), zero) || pred("minusP-vs-P", ad.isEqual(ad.neg(ad.mk(a)), P), zero) {
+				return
+			}
+		}
+		if ad.dbl != nil {
+			if pred("P-vs-2P", ad.isEqual(P, ad.dbl(P)), zero) {
+				return
+			}
+		}
+		if ad.add != nil {
+			if pred("P-vs-P+G", ad.isEqual(P, ad.add(P, ad.mk(big.NewInt(1)))), false) || pred("P+Q-vs-sum", ad.isEqual(ad.add(P, Q), ad.mk(sum)), true) {
+				return
+			}
+		}
+		vlib.Class(sub, "predicates-checked")
+		if rel == "Q=-P" && !zero {
+			vlib.Class(sub, "IsEqual(P,-P)=false-checked")
+		}
+	}
+	if ad.isIdentity != nil {
+		zero := a.Sign() == 0
+		bad := ""
+		switch {
+		case ad.isIdentity(P) != zero:
+			bad = "P"
+		case ad.isIdentity(ad.mk(big.NewInt(0))) != true:
+			bad = "decoded-identity"
+		case ad.add != nil && ad.neg != nil && !ad.isIdentity(ad.add(P, ad.neg(P))):
+			bad = "P+(-P)"
+		case ad.add != nil && ad.isIdentity(ad.add(P, Q)) != (new(big.Int).Mod(sum, ad.r).Sign() == 0):
+			bad = "P+Q"
+		case ad.mul != nil && !ad.isIdentity(ad.mul(big.NewInt(0), P)):
+			bad = "0·P"
+		case ad.mul != nil && ad.mulFactor == nil && 8*ad.sbytes >= ad.r.BitLen() && !ad.isIdentity(ad.mul(ad.r, P)):
+			bad = "r·P"
+		}
+		if bad != "" {
+			if !vlib.Report(t, fmt.Sprintf("C13/%s.IsIdentity/%s", ad.name, bad), desc) {
+				return
+			}
+		}
+	}
 	nt := boundary(kcls) || rel != "Q=random" || pcls != "P=random"
 	if nt {
 		cl := "nontrivial"
@@ -467,6 +576,111 @@ func runAdapter(t *testing.T, ad *adapter, nq, nt int) {
 		})
 	}
 	t.Run(ad.name+"-sweep", func(t *testing.T) { sweep(t, ad, vlib.N(24, 400)) })
+	t.Run(ad.name+"-concurrent", func(t *testing.T) { concurrent(t, ad) })
+}
+
+// denseNegative returns a scalar whose width-w NAF has the digit −d at every w-th position (and one
+// positive top digit): every call then walks through the same pre-computed table entry with a negation.
+func denseNegative(bits int, w uint, d int64) *big.Int {
+	m := new(big.Int).Lsh(big.NewInt(1), uint(bits-2))
+	for i := uint(0); i+2*w < uint(bits-2); i += w {
+		m.Sub(m, new(big.Int).Lsh(big.NewInt(d), i))
+	}
+	return m
+}
+
+// concurrent: several goroutines run fixed-base, variable-base and double-scalar multiplications at the
+// same time (shared pre-computed tables, package-level state); every result must equal the reference
+// value computed beforehand, and a sequential pass afterwards must still be right.
+func concurrent(t *testing.T, ad *adapter) {
+	sub := "concurrent/" + ad.name
+	type task struct {
+		name string
+		run  func() string
+		want string
+	}
+	var tasks []task
+	seedK := func(i int) *big.Int {
+		b := make([]byte, ad.sbytes)
+		vlib.ExpandInto(b, uint64(vlib.Seed)*1000+uint64(i))
+		return new(big.Int).SetBytes(b)
+	}
+	factor := big.NewInt(1)
+	if ad.mulFactor != nil {
+		factor = ad.mulFactor
+	}
+	nTasks := 4
+	for i := 0; i < nTasks; i++ {
+		k, bexp := seedK(2*i), new(big.Int).Mod(seedK(2*i+1), ad.r)
+		if i%2 == 1 {
+			k = denseNegative(ad.r.BitLen(), []uint{7, 5, 4, 3}[i%4], int64(1+2*(i%3)))
+		}
+		if ad.mulgen != nil {
+			kk := k
+			tasks = append(tasks, task{"ScalarBaseMult", func() string { return ad.enc(ad.mulgen(kk)) }, ad.want(kk)})
+		}
+		if ad.mul != nil {
+			kk, bb := k, bexp
+			e := new(big.Int).Mul(kk, bb)
+			Pb := ad.mk(bb) // shared read-only operand
+			tasks = append(tasks, task{"ScalarMult", func() string { return ad.enc(ad.mul(kk, Pb)) }, ad.want(e.Mul(e, factor))})
+		}
+		if ad.combined != nil {
+			mm, nn, bb := k, seedK(100+i), bexp
+			e := new(big.Int).Mul(nn, bb)
+			Pb := ad.mk(bb)
+			tasks = append(tasks, task{"CombinedMult", func() string { return ad.enc(ad.combined(mm, nn, Pb)) }, ad.want(e.Add(e, mm))})
+		}
+		if ad.add != nil {
+			aa, bb := k, bexp
+			Pa, Pb := ad.mk(aa), ad.mk(bb)
+			tasks = append(tasks, task{"Add", func() string { return ad.enc(ad.add(Pa, Pb)) }, ad.want(new(big.Int).Add(aa, bb))})
+		}
+	}
+	// make sure every reference point the tasks decode is cached before the goroutines start
+	for _, tk := range tasks {
+		if got := tk.run(); got != tk.want {
+			// a sequential failure belongs to the other sub-checks; do not report it as a concurrency defect
+			t.Skipf("sequential value already differs for %s (reported by the group-law sub-checks)", tk.name)
+		}
+	}
+	const G = 8
+	rounds := vlib.N(12, 48)
+	var wg sync.WaitGroup
+	errs := make(chan string, G)
+	for g := 0; g < G; g++ {
+		wg.Add(1)
+		go func(g int) {
+			defer wg.Done()
+			for r := 0; r < rounds; r++ {
+				for i := range tasks {
+					tk := tasks[(i+g)%len(tasks)]
+					if got := tk.run(); got != tk.want {
+						select {
+						case errs <- fmt.Sprintf("%s in goroutine %d round %d: got %s want %s", tk.name, g, r, got, tk.want):
+						default:
+						}
+						return
+					}
+				}
+			}
+		}(g)
+	}
+	wg.Wait()
+	close(errs)
+	vlib.EvalN(sub, int64(G*rounds*len(tasks)))
+	for e := range errs {
+		op := e[:strings.Index(e, " ")]
+		vlib.ReportDirect(t, fmt.Sprintf("C13/%s.%s/wrong-under-concurrency", ad.name, op), e, map[string]interface{}{"goroutines": G, "rounds": rounds})
+		return
+	}
+	for _, tk := range tasks {
+		if got := tk.run(); got != tk.want {
+			vlib.ReportDirect(t, fmt.Sprintf("C13/%s.%s/wrong-after-concurrency", ad.name, tk.name), fmt.Sprintf("got %s want %s", got, tk.want), map[string]interface{}{"goroutines": G})
+			return
+		}
+	}
+	vlib.NonTrivialH(sub, "concurrent-batch", vlib.Hash64([]byte(ad.name), []byte{byte(vlib.Seed), byte(vlib.Shard)}))
 }
 
 // sweep enumerates the scalars next to the boundaries the property names
